@@ -296,8 +296,13 @@ def run_entry(e, units):
                 unresolved=sorted(map(str, getattr(eng, 'unres', set()))))
 
 
+# entry points that do not exist in the 32-bit configuration (their units compile to a stub when 64-bit multiplications are unavailable)
+C32_ABSENT = ('ec_p256_m62.mul', 'ec_p256_m64.mul', 'ec_c25519_m62.mul', 'ec_c25519_m64.mul', 'ec_p256_m62.mulgen', 'ec_p256_m64.mulgen', 'poly1305_ctmulq')
+_CONFIG = ['host']
+
+
 def _worker(i):
-    units = flow.all_units()
+    units = flow.all_units(_CONFIG[0])
     try:
         return run_entry(ENTRIES[i], units)
     except AnalysisBroken as ex:
@@ -359,6 +364,17 @@ def run(tier):
     flow.all_units()
     with mp.get_context('fork').Pool(min(16, len(ENTRIES))) as pool:
         res = pool.map(_worker, range(len(ENTRIES)))
+    if tier == 'thorough':
+        # second pass over the 32-bit configuration (BR_64=0, no 128-bit products, BR_LOMUL: the code an ESP8266 build runs)
+        _CONFIG[0] = 'c32'
+        flow.all_units('c32')
+        idx = [k for k, e in enumerate(ENTRIES) if e['name'] not in C32_ABSENT]
+        with mp.get_context('fork').Pool(min(16, len(idx))) as pool:
+            res2 = pool.map(_worker, idx)
+        _CONFIG[0] = 'host'
+        for r in res2:
+            r['name'] = r['name'] + ' [c32]'
+        res = res + res2
     R = 'no-secret-dependent-control-or-address'
     tot = dict(loads=0, stores=0, branches=0, selects=0, contexts=0)
     for r in res:
@@ -378,5 +394,5 @@ def run(tier):
             chk.notes.append('%s: calls analysed as unknown externals: %s' % (r['name'], r['unknown']))
     for k, v in tot.items():
         chk.count(k + '_examined', v)
-    chk.floor('entries', len(res), len(ENTRIES))
+    chk.floor('entries', len(res), len(ENTRIES) if tier != 'thorough' else 2 * len(ENTRIES) - len(C32_ABSENT))
     return chk.finish()
